@@ -42,4 +42,23 @@ def globalLayout (L : Layout) (gshape : List Nat) : Except Err (Option Layout) :
     | none => .error .valueError
     | some m => .ok (some ((List.range L.length).foldl (globalStep L gshape) (L, m)).1)
 
+/-- the two guards added by fix FC12e (directly before `# find current strides`), `zip` over the tile
+layout: the tile divides the global in every dimension, and every STATIC subview offset
+(`none` = `DYNAMIC_INDEX`, cannot be checked) is a multiple of its tile -/
+def tileDividesB (L : Layout) (gshape : List Nat) : Bool :=
+  (L.zip gshape).all fun p => decide (p.2 % prodB p.1 = 0)
+
+def offsetsAlignedB (L : Layout) (offs : List (Option Nat)) : Bool :=
+  (L.zip offs).all fun p => match p.2 with
+    | none => true
+    | some o => decide (o % prodB p.1 = 0)
+
+/-- `ApplyLayoutCastSubviewGlobal` with fix FC12e: the pattern returns early (`ok none`) unless both
+guards hold; otherwise it computes what the unfixed code computes -/
+def globalLayoutFixed (L : Layout) (gshape : List Nat) (offs : List (Option Nat)) : Except Err (Option Layout) :=
+  if gshape.any (· = 0) then .ok none
+  else if gshape.length ≠ L.length then .error .outsideModel
+  else if !tileDividesB L gshape || !offsetsAlignedB L offs then .ok none
+  else globalLayout L gshape
+
 end SnaxVerif.CyclicLayout
